@@ -48,6 +48,12 @@ Theorem C10_signal_stays : forall (s : state) (a : action), sig s = true -> sig 
 Proof. exact sig_mono. Qed.
 Print Assumptions C10_signal_stays.
 
+(* ... lifted to whole executions: in every continuation of a run the signal is still up, and `stopped`, once
+   resolved, stays resolved (so "after `stopped` resolved" is a suffix-closed notion) *)
+Theorem C10_stop_monotone : forall (cap : nat) (tr1 tr2 : list action), (sig (run (init_cap cap) tr1) = true -> sig (run (init_cap cap) (tr1 ++ tr2)) = true) /\ (s_resolved (run (init_cap cap) tr1) = true -> s_resolved (run (init_cap cap) (tr1 ++ tr2)) = true).
+Proof. exact stop_monotone. Qed.
+Print Assumptions C10_stop_monotone.
+
 (* never stuck: in every reachable state with the stop signal up and some token still held, a step of the server's
    own tasks (or a handler returning) is enabled ... *)
 Theorem C10_no_hang : forall (cap : nat) (tr : list action), 1 <= cap -> let s := run (init_cap cap) tr in sig s = true -> all_dropped s = false -> exists a, internal a = true /\ effective s a = true.
